@@ -891,3 +891,17 @@ B('PS-apply-attr-args-dropped', ['C18'], 'batch.py', 'Batch._apply_attr',
 N('PS-apply-items-renamed-loop', ['C18'], 'batch.py', 'Batch.apply_items',
   '            for label, frame in self._items:\n                labels.append(label)\n                yield frame, func, label\n',
   '            for k, f in self._items:\n                labels.append(k)\n                yield f, func, k\n')
+
+# ---------------------------------------------------------------------------------- aligned positional stores (C14 / C08)
+B('AS-fillna-reindex-sorted-common', ['C14'], 'series.py', 'Series.fillna',
+  '            value = self._reindex_other_like_iloc(value,\n                    sel,\n                    fill_value=fill_value).values',
+  '            value = value.reindex(labels_common,\n                    fill_value=fill_value).values', 'I.aligned-store-same-key', 'fillna')
+B('AS-fillna-other-key', ['C14'], 'series.py', 'Series.fillna',
+  '            value = self._reindex_other_like_iloc(value,\n                    sel,\n                    fill_value=fill_value).values',
+  '            value = self._reindex_other_like_iloc(value,\n                    isna_array(values),\n                    fill_value=fill_value).values', 'I.aligned-store-same-key', 'fillna')
+B('AS-assign-own-labels', ['C08'], 'series.py', 'SeriesAssign.__call__',
+  '            value = self.container._reindex_other_like_iloc(value,\n                    self.key,\n                    fill_value=fill_value).values',
+  '            value = value.reindex(value.index, fill_value=fill_value).values', 'I.aligned-store-same-key', '__call__')
+N('AS-fillna-explicit-own-index', ['C14'], 'series.py', 'Series.fillna',
+  '            value = self._reindex_other_like_iloc(value,\n                    sel,\n                    fill_value=fill_value).values',
+  '            value = value.reindex(self._index._extract_iloc(sel),\n                    fill_value=fill_value).values')
